@@ -232,6 +232,12 @@ func (s *Service) HandleInbound(msg service.DIDCommMsg, ctx service.DIDCommConte
 		return "", err
 	}
 
+	// the state check below is made on this thread ID, the handlers read the ~thread decorator through Decode, which
+	// matches member names regardless of case: both must name the same thread.
+	if err = checkDecodedThreadID(msg, thID); err != nil {
+		return "", err
+	}
+
 	// valid state transition and get the next state
 	next, err := s.nextState(msg.Type(), thID)
 	if err != nil {
@@ -752,6 +758,23 @@ func (s *Service) fetchConnectionRecord(nsPrefix string, payload service.DIDComm
 	}
 
 	return s.connectionRecorder.GetConnectionRecordByNSThreadID(key)
+}
+
+// checkDecodedThreadID fails if the thread ID decoded from the ~thread decorator is present and differs from thID.
+func checkDecodedThreadID(msg service.DIDCommMsg, thID string) error {
+	decoded := &struct {
+		Thread decorator.Thread `json:"~thread,omitempty"`
+	}{}
+
+	if err := msg.Decode(decoded); err != nil {
+		return fmt.Errorf("decode ~thread: %w", err)
+	}
+
+	if decoded.Thread.ID != "" && decoded.Thread.ID != thID {
+		return fmt.Errorf("ambiguous thread ID: ~thread decodes to thid=%s, message thread ID is %s", decoded.Thread.ID, thID)
+	}
+
+	return nil
 }
 
 func generateRandomID() string {
